@@ -9,6 +9,13 @@ pub use crate::dictionary::connector::matrix_connector::MatrixConnector;
 pub use crate::dictionary::connector::raw_connector::RawConnector;
 use crate::dictionary::mapper::ConnIdMapper;
 
+/// Re-exports for the verification hooks.
+#[cfg(vibrato_verif)]
+pub(crate) mod verif {
+    pub use super::raw_connector::scorer::{ScorerBuilder, U31x8, SIMD_SIZE};
+    pub use super::raw_connector::INVALID_FEATURE_ID;
+}
+
 pub trait Connector {
     /// Returns maximum number of left connection ID
     fn num_left(&self) -> usize;
